@@ -1,3 +1,8 @@
+/-
+STAGE B of the soundness theorem: the arguments are the first nodes of `F`, re-keying the argkeys
+from node indices of `S` to indices into `AV` does not merge terms, and the value of every target is
+`Σ_{(k,f)} F[f]·Π_{a∈k} F[a]`.
+-/
 import FfcxProofs.Lemmas.FactorizeNodes
 
 namespace Ffcx.IR
